@@ -22,10 +22,10 @@ from core import enc_bool, enc_opt, enc_str, enc_str_list
 
 PROPERTY = "C17"
 
-# CODE VARIANT FLAGS  (value = what today's /repo does; see Model/Syntax.lean)
-# (the environment overrides exist only to try a pending fix: VERIF_REPO=<worktree> VERIF_C17_STRIPNL=0 VERIF_C17_SKIP_RAISES=0)
-STRIPNL = int(os.environ.get("VERIF_C17_STRIPNL", "0"))          # 1: get_lexer_by_name(name) keeps Pygments' stripnl=True; 0: repaired (stripnl=False)
-SKIP_RAISES = int(os.environ.get("VERIF_C17_SKIP_RAISES", "0"))  # 1: bare next(tokens) in tokens_to_spans -> RuntimeError past the end; 0: repaired (break)
+# CODE VARIANT FLAGS  (value = what /repo does now: both defects are repaired; 1 = rich 9.10.0 as found; see Model/Syntax.lean)
+# (the environment overrides exist only to run against another checkout: VERIF_REPO=<worktree> VERIF_C17_STRIPNL=1 VERIF_C17_SKIP_RAISES=1)
+STRIPNL = int(os.environ.get("VERIF_C17_STRIPNL", "0"))          # 1: get_lexer_by_name(name) keeps Pygments' stripnl=True; 0: repaired (stripnl=False; fix 92fb879)
+SKIP_RAISES = int(os.environ.get("VERIF_C17_SKIP_RAISES", "0"))  # 1: bare next(tokens) in tokens_to_spans -> RuntimeError past the end; 0: repaired (break; fix 1d638e8)
 
 GUIDE = "│"
 CTL = {8, 11, 12, 13}
@@ -1080,11 +1080,11 @@ MANIFEST = {
     "traceback_marks_failing_line (exactly one marked row, numbered lineno, showing line lineno, for every extra_lines / leading blank lines / "
     "file length / indent guides); render_history_independent + stack_cache_transparent (for every history of renders the code a frame's Syntax "
     "is built from is the file's content at the moment of that render; read_code's per-call cache is transparent; witness that a persistent "
-    "cache would show stale text). Proved for the repaired variant (stripnl=False; StopIteration guarded); `old_*` witnesses (decide) show today's "
-    "variant violates them. Tie: every run renders ~20k real Syntax objects (5 lexers incl. unknown, every option axis, bounded-exhaustive "
+    "cache would show stale text). Proved for the repaired variant (stripnl=False; StopIteration guarded), which is what /repo contains now (fixes 92fb879, 1d638e8); `old_*` "
+    "witnesses (decide) show that the variant of rich 9.10.0 as found violated them. Tie: every run renders ~25k real Syntax objects (5 lexers incl. unknown, every option axis, bounded-exhaustive "
     "sources <=4 over {a,space,newline,tab,wide}) through a real Console and compares all rows character for character with the model fed the "
     "real Pygments token stream; helper functions (expandtabs, Pygments preprocessing, Text.split/remove_suffix, Syntax.highlight for all ranges, "
-    "indent guides, slices, str(n), _numbers_column_width) compared exhaustively on small alphabets; Syntax.from_path; 120 generated raising "
+    "indent guides, slices, str(n), _numbers_column_width) compared exhaustively on small alphabets; Syntax.from_path; 90 (quick; thorough 2,000) generated raising "
     "modules rendered through Traceback and checked against the files; a HISTORY of tracebacks in one process over the same paths rewritten "
     "between renders (single module, main+lib pair, chained exception), each compared with the files read at that moment, and every random "
     "Syntax case re-rendered later in shuffled order both fresh and through one reused Syntax object (history independence); plus direct evaluation of the statement on rich's own output.",
@@ -1095,7 +1095,8 @@ MANIFEST = {
     "(they cannot change characters; all Pygments themes are rendered in the thorough tier); (5) trailing EMPTY lines of the source or of a "
     "range may be missing (<=2; <=3 more with indent guides) and an empty selection with indent guides shows one blank row — both are modelled "
     "quirks allowed by the statement's 'blank lines at the very end aside'. Trusted: Lean kernel; propext/Classical.choice/Quot.sound; the "
-    "harness; C13's cell-width model. Two genuine defects found (see pending_fixes/C17-*.diff): stripnl=True drops leading blank lines "
-    "(numbers shift, tracebacks mark nothing or the wrong line); a line_range starting more than one line past the end raises RuntimeError.",
+    "harness; C13's cell-width model. Two genuine defects found in rich 9.10.0 as found, both repaired in /repo (fixes 92fb879, 1d638e8 = pending_fixes/C17-*.diff): stripnl=True "
+    "dropped leading blank lines (numbers shifted, tracebacks marked nothing or the wrong line); a line_range starting more than one line past "
+    "the end raised RuntimeError.",
     "design_ref": "DESIGN.md section 7 (C17) and section 8 (F13)",
 }
